@@ -380,6 +380,164 @@ def run_history(seed, case):
     return R, env
 
 
+def run_sequence_history(seed):
+    """Several consecutive switches on one session (pools all open): the same target repeated after a failed attempt, A->B->A, A->B->C;
+    per (switch, node) the node accepts or refuses the keyspace (InvalidRequest, connection stays open).  After every switch: an answered
+    error must be reported, and after a reported success every pooled connection / probe request must be on that keyspace at the node."""
+    from sim.env import SimEnv
+    from sim import world as W
+    from sim.scen import uid_query, uid_of, ECHO_COLS
+    from cassandra.cluster import ExecutionProfile, EXEC_PROFILE_DEFAULT
+    from cassandra.policies import RoundRobinPolicy, HostDistance, FallthroughRetryPolicy
+
+    rng = random.Random(seed)
+    random.seed(seed)
+    n = rng.choice([1, 2, 2, 3])
+    proto = rng.choice([4, 4, 3, 2])
+    init_ks = rng.choice([None, 'ks1', 'ks1'])
+    addrs = ['127.0.0.%d' % (i + 1) for i in range(n)]
+    n_switch = rng.choice([2, 2, 3])
+    pattern = rng.choice(['retry', 'retry', 'back', 'chain', 'random'])
+    if pattern == 'retry':
+        targets = ['ks2'] * n_switch
+    elif pattern == 'back':
+        targets = (['ks2', init_ks or 'ks1', 'ks2'])[:n_switch]
+    elif pattern == 'chain':
+        targets = ['ks2', 'ks3', 'ks2'][:n_switch]
+    else:
+        targets = [rng.choice(['ks1', 'ks2', 'ks3']) for _ in range(n_switch)]
+    # refuse[i][a]: node a refuses the keyspace of switch i; the first switch fails somewhere more often than not
+    refuse = []
+    for i in range(n_switch):
+        p_ref = 0.5 if i == 0 else 0.25
+        refuse.append(dict((a, rng.random() < p_ref) for a in addrs))
+    triggers = [rng.choice(['execute', 'set_keyspace', 'async']) for _ in range(n_switch)]
+    ch = W.RandomChooser(random.Random(seed * 11 + 3), p_time=0.0, p_preempt=rng.choice([0.0, 0.1, 0.3]))
+    env = SimEnv(ch, addresses=addrs, max_virtual_time=2000.0)
+    cur = [None]
+    use_re = re.compile(r'\s*use\s+("?)(ks\d)\1\s*;?\s*$', re.I)
+    errors_answered = []
+    use_seen = []
+    R = {'viol': [], 'steps': [], 'case': {'proto': proto, 'nodes': n, 'init_ks': init_ks, 'targets': targets, 'refuse': refuse, 'triggers': triggers},
+         'checked_conns': 0, 'probes': 0, 'ok': 0, 'err': 0, 'retries_after_failure': 0}
+
+    def behaviour(node, cstate, req):
+        if req['op'] != 'QUERY':
+            return None
+        q = req['query']
+        uid = uid_of(q)
+        if uid is not None:
+            return node.rows(cstate, req, ECHO_COLS, [[uid, node.address]], 'ks', 't')
+        m = use_re.match(q)
+        if not m or cur[0] is None:
+            return None
+        i = cur[0]
+        use_seen.append((i, node.address, cstate.conn.sim_id, m.group(2)))
+        if m.group(2) == targets[i] and refuse[i][node.address]:
+            errors_answered.append((i, node.address))
+            return node.error(cstate, req, 'invalid', "Keyspace '%s' does not exist" % m.group(2))
+        return None
+
+    for nd in env.net.nodes.values():
+        nd.behaviour = behaviour
+    uid_counter = itertools.count(1)
+    with env:
+        w = env.world
+        prof = ExecutionProfile(load_balancing_policy=RoundRobinPolicy(), request_timeout=None, retry_policy=FallthroughRetryPolicy())
+        cluster = env.cluster(contact_points=[addrs[0]], executor_threads=3, protocol_version=proto, execution_profiles={EXEC_PROFILE_DEFAULT: prof})
+        if proto < 3:
+            cluster.set_core_connections_per_host(HostDistance.LOCAL, rng.choice([1, 2]))
+            cluster.set_max_connections_per_host(HostDistance.LOCAL, 2)
+        session = cluster.connect(init_ks, wait_for_all_pools=True)
+        w.settle(advance=False)
+        hosts = dict((h.endpoint.address, h) for h in cluster.metadata.all_hosts())
+        failed_before = set()
+        for i in range(n_switch):
+            cur[0] = i
+            target = targets[i]
+            if target in failed_before:
+                R['retries_after_failure'] += 1
+            coord = hosts[rng.choice(addrs)] if rng.random() < 0.8 else None
+            n_err_before = len(errors_answered)
+            outcome = None
+            try:
+                if triggers[i] == 'execute':
+                    session.execute("USE %s" % target, host=coord)
+                    outcome = ('ok',)
+                elif triggers[i] == 'set_keyspace':
+                    session.set_keyspace(target)
+                    outcome = ('ok',)
+                else:
+                    f = session.execute_async("USE %s" % target, host=coord)
+                    w.settle(advance=False)
+                    if not f._event.is_set():
+                        w.settle(until=w.now + 30.0)
+                    if not f._event.is_set():
+                        R['viol'].append(('a', "switch %d (USE %s) is still pending 30 s after every node answered" % (i, target), {'step': i}))
+                        break
+                    outcome = ('ok',) if f._final_exception is None else ('err', f._final_exception)
+            except W.WorldHang as e:
+                R['viol'].append(('a', "switch %d (USE %s, %s) never returns: %s" % (i, target, triggers[i], str(e)[:200]), {'step': i}))
+                R['trace'] = tuple(x[:2] for x in w.trace)
+                return R, env
+            except W.WorldLimit:
+                raise
+            except Exception as e:
+                outcome = ('err', e)
+            w.settle(advance=False)
+            answered = [x for x in errors_answered[n_err_before:]]
+            R['steps'].append((target, triggers[i], outcome[0], sorted(set(a for _, a in answered))))
+            if outcome[0] == 'ok':
+                R['ok'] += 1
+            else:
+                R['err'] += 1
+                failed_before.add(target)
+            if answered and outcome[0] == 'ok':
+                R['viol'].append(('c', "switch %d (USE %s) reported success although node(s) %s answered USE with an error" % (
+                    i, target, sorted(set(a for _, a in answered))), {'step': i}))
+                continue
+            if outcome[0] != 'ok':
+                continue
+            # (b) after a reported success: every pooled connection, and the connection a later request travels on, is on `target`
+            probes = {}
+            for a in addrs:
+                uid = next(uid_counter)
+                probes[uid] = a
+                session.execute_async(uid_query(uid), host=hosts[a], timeout=5.0)
+            w.settle(until=w.now + 8.0)
+            with w.inspect():
+                asked = sorted(set(x[1] for x in use_seen if x[0] == i))
+                for req in env.net.wire_log:
+                    uid = uid_of(req.get('query') or '') if req['op'] == 'QUERY' else None
+                    if uid in probes:
+                        R['probes'] += 1
+                        conn = env.net.conns[req['_conn']]
+                        if conn.peer.keyspace != target:
+                            R['viol'].append(('b', "after switch %d (USE %s) reported success a request travelled on connection %d to %s whose keyspace at the node is %r" % (
+                                i, target, conn.sim_id, req['_node'], conn.peer.keyspace),
+                                {'step': i, 'node_ks': conn.peer.keyspace, 'client_ks': conn.keyspace, 'nodes_asked_in_this_switch': asked,
+                                 'same_target_failed_before': target in failed_before, 'session_ks': session.keyspace}))
+                for h, pool in list(session._pools.items()):
+                    if pool.is_shutdown:
+                        continue
+                    for conn in list(pool.get_connections()):
+                        if conn.is_closed or conn.is_defunct:
+                            continue
+                        R['checked_conns'] += 1
+                        if conn.peer.keyspace != target or conn.keyspace != target:
+                            R['viol'].append(('b', "after switch %d (USE %s) reported success pooled connection %d to %s has keyspace %r at the node and %r at the client" % (
+                                i, target, conn.sim_id, h.endpoint.address, conn.peer.keyspace, conn.keyspace),
+                                {'step': i, 'node_ks': conn.peer.keyspace, 'client_ks': conn.keyspace, 'nodes_asked_in_this_switch': asked,
+                                 'same_target_failed_before': target in failed_before, 'session_ks': session.keyspace}))
+                if session.keyspace != target:
+                    R['viol'].append(('b', "session.keyspace is %r after switch %d (USE %s) reported success" % (session.keyspace, i, target), {'step': i, 'session': True}))
+        R['trace'] = tuple(x[:2] for x in w.trace)
+        cluster.shutdown()
+        w.settle(until=w.now + 30)
+    return R, env
+
+
+
 def classify_incomplete(R):
     """Mechanism of a switch that never completed, from what the pool wrappers saw."""
     calls = R['calls']
@@ -418,6 +576,8 @@ def run(ctx):
     ctx.rule = ("a case is one history: protocol (v2 pools with 1-2 connections / v3+ single-connection pools), 1-4 pools each in a state from "
                 "{open, no connection, shut down, USE error, USE swallowed then connection lost}, trigger (execute_async with held answers released "
                 "in a chosen order / execute / set_keyspace with chooser-picked delivery order), request timeout (none or finite), initial keyspace; "
+                "every fourth history instead runs 2-3 consecutive switches on one session with all pools open (same target repeated after a failed attempt, "
+                "A->B->A, A->B->C; per switch and node the keyspace is accepted or refused) and applies (a)(b)(c) after every switch; "
                 "distinct by event-order signature of the world trace; non-trivial = at least one pool not in state open or at least 2 pools")
     ctx.assume("a request timeout ending a switch whose pools never all called back counts as 'completed with an error' (the statement only demands completion); "
                "the never-completes verdict is only drawn with request_timeout=None, where nothing else can end the wait")
@@ -438,7 +598,9 @@ def run(ctx):
             ctx.note("stopped by time budget after %d histories (%d of %d systematic)" % (i, done_sys, len(mine)))
             break
         # systematic cases first in thorough; interleaved in quick so that both kinds are seen within the time budget
-        if mine and (not ctx.quick or i % 3 != 2):
+        if i % 4 == 3:
+            case = None
+        elif mine and (not ctx.quick or i % 3 != 2):
             case = mine.pop()
             done_sys += 1
         elif n_random > 0:
@@ -449,6 +611,39 @@ def run(ctx):
             done_sys += 1
         else:
             break
+        if i % 4 == 3:
+            # several consecutive switches on one session
+            seed = base + i
+            i += 1
+            try:
+                R, env = run_sequence_history(seed)
+            except WorldLimit:
+                ctx.count("histories_over_budget")
+                continue
+            except Exception as e:
+                import traceback
+                raise Inconclusive("sequence history seed %d failed in the harness: %s: %s\n%s" % (seed, type(e).__name__, e, traceback.format_exc()[-800:]))
+            if env.world.errors or env.net.parse_failures:
+                raise Inconclusive("harness error in sequence history seed %d: %r" % (seed, (list(env.world.errors) + list(env.net.parse_failures))[:2]))
+            ctx.case(repr(R.get('trace')), nontrivial=True)
+            ctx.count("sequence_histories")
+            ctx.count("sequence_switches_reporting_success", R['ok'])
+            ctx.count("sequence_switches_reporting_error", R['err'])
+            ctx.count("sequence_switches_repeating_a_target_that_failed_before", R['retries_after_failure'])
+            ctx.count("sequence_connections_checked_after_success", R['checked_conns'])
+            ctx.count("sequence_probe_requests_located_on_the_wire", R['probes'])
+            seen = set()
+            for v in R['viol']:
+                mech = {'a': "keyspace-switch-never-completes", 'c': "use-error-not-reported"}.get(v[0]) or \
+                    ("session-keyspace-not-updated" if v[2].get('session') else "connection-with-stale-keyspace-after-successful-switch")
+                if mech in seen:
+                    continue
+                seen.add(mech)
+                ctx.violation(mech, "%s [sequence %s, v%d, %d nodes, init=%s]" % (v[1], R['steps'], R['case']['proto'], R['case']['nodes'], R['case']['init_ks']),
+                              {"seed": seed, "case": R['case'], "steps": R['steps'], "detail": v[2]})
+            if not R['viol'] and len(ctx.samples) < 6 and R['retries_after_failure'] and R['ok']:
+                ctx.sample({"sequence": R['steps'], "case": R['case'], "checked_conns": R['checked_conns'], "probes": R['probes']})
+            continue
         seed = base + i
         i += 1
         try:
@@ -512,4 +707,5 @@ def run(ctx):
     ctx.floor_distinct = 60 if ctx.quick else 1500
     ctx.floor_counters = {"histories": 60, "pool_callbacks_observed": 60, "successful_switches": 15, "switches_reporting_error": 15,
                           "connections_checked_after_success": 25, "probe_requests_located_on_the_wire": 25,
+                          "sequence_histories": 15, "sequence_switches_repeating_a_target_that_failed_before": 5, "sequence_connections_checked_after_success": 15,
                           "pools_in_state_noconn": 10, "pools_in_state_shutdown": 10, "pools_in_state_error": 10, "pools_in_state_lost": 10}
